@@ -939,6 +939,49 @@ theorem fmmu_windows_disjoint : fmmu_windows_disjoint_full := by
   · left; exact decide_eq_true (by omega)
   · right; exact decide_eq_true (by omega)
 
+/-! ### the addresses `get_fmmu_addr` hands out (what a participant actually receives) -/
+
+/-- every address handed to a participant lies, with its whole block, inside the participant's own window, and its
+process-number field (`a / fmWindow`, all 9 bits of it) is the participant's own number -/
+theorem given_in_window (p : Proc) (a : Nat) (ha : a ∈ givenAddrs p) :
+    winLo p ≤ a ∧ a + fmGroup ≤ winLo p + winLen p ∧ a / fmWindow = p.fmNo := by
+  simp only [givenAddrs, List.mem_map, List.mem_range] at ha
+  obtain ⟨k, hk, rfl⟩ := ha
+  have hc : granted p ≤ maxGroups := Nat.min_le_right _ _
+  simp only [winLo, winLen, winBase, lastAddr]
+  simp only [maxGroups, fmWindow, fmGroup] at hc ⊢
+  exact ⟨by omega, by omega, by omega⟩
+
+/-- the k-th call returns the k-th block above the window start: distinct calls give distinct, non-overlapping blocks -/
+theorem given_nodup_blocks (p : Proc) (k l : Nat) (_hk : k < granted p) (_hl : l < granted p) (h : k ≠ l) :
+    disjoint (lastAddr p.fmNo (k + 1)) fmGroup (lastAddr p.fmNo (l + 1)) fmGroup = true := by
+  simp only [disjoint, lastAddr, Bool.or_eq_true]
+  simp only [fmWindow, fmGroup]
+  rcases Nat.lt_or_gt_of_ne h with h | h
+  · left; exact decide_eq_true (by omega)
+  · right; exact decide_eq_true (by omega)
+
+def fmmu_given_disjoint_full : Prop :=
+  ∀ (cfgs : List Cfg) (fm0 : Option (List Nat)) (sched : List Nat),
+    GivenDisjoint (run (init cfgs fm0) sched)
+
+/-- **C23, addresses handed out**: for every schedule, any draws, any earlier bitmap contents and any number of
+`get_fmmu_addr` calls, no block named by an address handed to one running participant overlaps a block named by an
+address handed to another (in particular two participants whose process numbers differ in one bit only). -/
+theorem fmmu_given_disjoint : fmmu_given_disjoint_full := by
+  intro cfgs fm0 sched i j hi hj hij hri hrj a ha b hb
+  have hw := fmmu_windows_disjoint cfgs fm0 sched i j hi hj hij hri hrj
+  obtain ⟨ha1, ha2, _⟩ := given_in_window _ a ha
+  obtain ⟨hb1, hb2, _⟩ := given_in_window _ b hb
+  simp only [disjoint, Bool.or_eq_true, decide_eq_true_eq] at hw ⊢
+  rcases hw with h | h
+  · left; omega
+  · right; omega
+
+/-- non-vacuity: process numbers 255 and 511 (they differ in the top bit only), two and three calls -/
+example : givenAddrs { fmNo := 255, nAddr := 2 } = [255 * 4194304 + 4096, 255 * 4194304 + 8192] := by decide
+example : (givenAddrs { fmNo := 511, nAddr := 3 }).map (· / fmWindow) = [511, 511, 511] := by decide
+
 /-! ### the invariant behind `installed_while_running_partial` -/
 
 /-- member that is past the start section and has not begun to leave -/
